@@ -100,7 +100,7 @@ def logical_input(rng):
         cut = m['multi_string'].index('}.{')
         c = dict(kind='multilevel', base_string=m['multi_string'][:cut + 1], frag_string=m['multi_string'][cut + 2:], features=m['features'])
     else:
-        a = ambig.random_case(rng, coarse=False, prefer=('WT', 'WH', 'WG', 'HT', 'NA', 'HB', 'HB2') if rng.random() < 0.5 else ())
+        a = ambig.random_case(rng, coarse=False, prefer=('WT', 'WH', 'WG', 'HT', 'NA', 'HB', 'HB2', 'LAB', 'EN2', 'LAB') if rng.random() < 0.5 else ())
         if a is None:
             return None
         cut = a['string'].index('}.{')
@@ -140,6 +140,10 @@ def cases(seed, tier, shard, nshards):
             li = logical_input(rng)
             if li is not None:
                 inputs.append(li)
+                if li['kind'] == 'ambig' and rng.random() < 0.6:
+                    # the same text under the OTHER matching convention, as an input of its own in the same history
+                    flipped = [dict(p, kw=dict(p.get('kw', {}), legacy=not p.get('kw', {}).get('legacy', True))) for p in li['presentations']]
+                    inputs.append(dict(li, presentations=flipped, features=sorted(set(li['features']) | {'same_text_under_the_other_convention'})))
         order = []
         for i, li in enumerate(inputs):
             for j, _p in enumerate(li['presentations']):
